@@ -87,10 +87,18 @@ class Ctx:
         shutil.copy(os.path.join(REPO, "go.sum"), hs)
         bind = self.sub("bin")
         env = dict(os.environ, **GOENV)
-        r = subprocess.run(["go", "build", "-tags", "verif", "-o", os.path.join(bind, "vh"), "."],
+        r = subprocess.run(["go", "build", "-tags", "verif astexport", "-o", os.path.join(bind, "vh"), "."],
                            cwd=hs, env=env, capture_output=True, text=True)
+        self.astexport = r.returncode == 0
         if r.returncode != 0:
-            raise Infra("harness build failed:\n" + r.stderr[-4000:])
+            # the tree exporter depends on the parser's getters; everything else only on Tokenize / Transpile / the Converter interface
+            first = r.stderr
+            r = subprocess.run(["go", "build", "-tags", "verif", "-o", os.path.join(bind, "vh"), "."],
+                               cwd=hs, env=env, capture_output=True, text=True)
+            if r.returncode != 0:
+                raise Infra("harness build failed:\n" + r.stderr[-4000:])
+            self.notes["harness_without_astexport"] = first[-600:]
+            log("harness built WITHOUT the syntax-tree exporter (the repository's own test programs are left out):", first.strip().splitlines()[1:2])
         r = subprocess.run(["go", "build", "-tags", "verif", "-o", os.path.join(bind, "tsh"), "."],
                            cwd=REPO, env=env, capture_output=True, text=True)
         if r.returncode != 0:
